@@ -1,7 +1,8 @@
 """Configuration of the check for C08 (loaded by checklib/props.py; COMMON_TRUSTED / MODEL_TRUSTED are in scope)."""
 
 PROP = {'modules': ['AmVerif.Props.C08'],
- 'engines': [{'name': 'hrlive', 'quick': 30, 'thorough': 90}],
+ 'engines': [{'name': 'hrlive', 'quick': 30, 'thorough': 90},
+             {'name': 'iso', 'tag': 'iso-parking_lot', 'features': 'parking_lot', 'first': 5, 'quick': 1, 'thorough': 30, 'classes': ['stress-hung', 'event-never-taken']}],
  'rule': 'every case = one op executed in a CHILD process (re-exec of amh) under a watchdog: blocked = every thread in scheduler state S, no '
          'progress-counter movement and no CPU tick for 2 s; death by signal reported with the signal. cases 0-15: all 16 look-up graphs on two '
          'script assets (self and mutual get_cached look-ups), file of a0 edited + notified, one hot_reload(); case 16: 4 threads x 400 '
